@@ -56,6 +56,13 @@ static void one_buffer(int ii, uint8_t *p, int len, const char *place)
 			}
 			p[pos] = 0;
 		}
+		/* the routine only reads: every byte the harness set has been restored, so the region must be all zero again */
+		for (int j = 0; j < len; j++)
+			if (p[j]) {
+				snprintf(key, sizeof key, "%s modified-the-region len=%d %s", impl[ii].name, len, place);
+				v_violation(key, "byte %d of the region is %02x after the single-byte sweep (the routine wrote to its input)", j, p[j]);
+				p[j] = 0;
+			}
 		/* dense families: runs of non-zero bytes (every byte lane of a vector block non-zero at once).
 		 *   suffix [q,len) for every q, prefix [0,q) for every q, sliding window [q,q+128) and [q,q+64) for every q;
 		 * fill values ff / 01 / 80. The answer must be non-zero and nothing outside the region may be read. */
